@@ -200,6 +200,71 @@ def gen(ctx):
         cases.append(("privinfo " + pkcs8(d1, b).hex(), '"-1"', "privinfo:mismatch:" + cls, 300))
     # d = n - 70 (public key computed as infinity by the unrepaired generator multiplication) with an "infinity" public key
     cases.append(("privder " + ecpriv(N - 70, octs(4, 0, 0)).hex(), '"-1"', "privder:mismatch:n-70+04-zero", 300))
+    # --- scalar generation with a scripted entropy source (sm2_z256_rand_range, sm2_key_generate)
+    def le(v):
+        return v.to_bytes(32, "little").hex()
+    def gl(draws):
+        return "[" + "; ".join('"%s"' % d for d in draws) + "]"
+    def rr(range_, vals, fail, cell):
+        script = "".join(le(v) for v in vals)
+        draws = [le(v) for v in vals]
+        if fail >= 0:
+            draws = draws[:fail] + ["FAIL"]
+        cases.append(("randrange %s %s %d" % (h64(range_), script if script else "-", fail),
+                      "(h_randrange %s %s %s)" % (z(range_), z(A5), gl(draws)), cell, 40 + len(draws)))
+    for range_, rc in ((N - 1, "n-1"), (5, "5"), (1 << 255, "2^255"), (1, "1")):
+        hi = lambda: range_ + rnd() % (R - range_)
+        lo = lambda: rnd() % range_
+        for j in (0, 1, 2, 99):
+            rr(range_, [hi() for _ in range(j)] + [lo()], -1, "randrange:%s:accept-at-draw%d" % (rc, j))
+        rr(range_, [range_], 0, "randrange:%s:entropy-fails-first" % rc)
+        rr(range_, [hi(), hi(), hi()], 2, "randrange:%s:entropy-fails-later" % rc)
+        rr(range_, [hi() for _ in range(100)], -1, "randrange:%s:100-rejections" % rc)
+        rr(range_, [range_ - 1] , -1, "randrange:%s:range-1" % rc)
+        rr(range_, [range_, range_ - 1], -1, "randrange:%s:range-then-range-1" % rc)
+    def kg(vals, fail, cell):
+        script = "".join(le(v) for v in vals)
+        draws = [le(v) for v in vals]
+        if fail >= 0:
+            draws = draws[:fail] + ["FAIL"]
+        cases.append(("keygen - %s %d" % (script if script else "-", fail), "(h_keygen %s %s)" % (z(A5), gl(draws)), cell, 1500))
+    good = lambda: 1 + rnd() % (N - 2)
+    kg([good()], -1, "keygen:first-draw")
+    kg([0, good()], -1, "keygen:zero-then-good")
+    kg([0, 0, 1], -1, "keygen:zero-zero-one")
+    kg([N - 1, N, M, N - 2], -1, "keygen:rejected-then-n-2")
+    kg([N - 1], 1, "keygen:n-1-then-entropy-fails")
+    kg([good()], 0, "keygen:entropy-fails")
+    kg([N - 1 + rnd() % (R - N + 1) for _ in range(100)], -1, "keygen:100-rejections")
+    kg([1], -1, "keygen:one")
+    # --- hash to a point, key digest
+    for i in range(10 * scale):
+        data = r.bytes([0, 1, 31, 32, 33, 64, 100][i % 7])
+        for odd in (0, 1):
+            cases.append(("fromhash %s %s %d" % (pins, data.hex() if data else "-", odd),
+                          '(h_fromhash %s "%s" %d)' % (ping, data.hex(), odd), "fromhash:len%d:odd%d" % (len(data), odd), 400))
+    for (t, cls) in reps[:6] + reps[-2:]:
+        cases.append(("keydigest %s %s %s" % (h64(t[0]), h64(t[1]), h64(t[2])), "(h_keydigest %s %s %s)" % (z(t[0]), z(t[1]), z(t[2])), "keydigest:" + cls, 80))
+    # --- every encoder against its decoder
+    for (d, cls) in scal:
+        cases.append(("rt " + h64(d), '"1"' if 1 <= d <= N - 2 else '"-1"', "roundtrip:" + cls, 10))
+    # --- text helpers
+    def ptext(t, pt, a, b, cell):
+        X, Y, Zc = t
+        out = "_" * b + "n:_%064x|" % X
+        if Zc == 0:
+            out += "_" * b + "P:_point_at_infinity|"
+        else:
+            out += "_" * b + "P:_%064X%064X|" % pt
+        rinv = pow(R, -1, P)
+        out += "_" * b + "A:_%064X%064X|" % (X * rinv % P, Y * rinv % P)
+        cases.append(("ptext %s %s %s %d %d" % (h64(X), h64(Y), h64(Zc), a, b), '"%s"' % out, cell, 5))
+    ptext(E.jac(G), G, 0, 0, "ptext:norm")
+    ptext(E.jac(pts[3], 7), pts[3], 0, 4, "ptext:scaled-indent")
+    ptext(E.jac(pts[4]), pts[4], 3, 2, "ptext:fmt3")
+    ptext((E.mont(1), E.mont(1), 0), None, 0, 1, "ptext:infinity")
+    for (x, y, cls) in xy[:8] + [(0, 0, "(0,0)"), (P, 1, "x=p")]:
+        cases.append(("hexpt %064x%064x" % (x, y), "(h_hexpt %s %s)" % (z(x), z(y)), "hexpt:" + cls, 30))
     return cases
 
 
